@@ -174,6 +174,10 @@ func (c17) Run(c *run.Ctx, phase, idx int) {
 				res := libRead(f)
 				det := map[string]interface{}{"cell": cell, "frame": hexClip(f, 256)}
 				if !res.Accepted() {
+					if _, serr := ref.Decode(f); serr != nil && res.Panic == nil {
+						c.Count("skipped", "wire-cell-refused-by-decoder/Publish", 1)
+						continue // e.g. QoS 3: a decoder may refuse what MQTT forbids; nothing to judge then
+					}
 					c.Violation("C17/wire-rejected/Publish", fmt.Sprintf("frame for cell %s was not decoded: %v %v", cell, res.Err, res.Panic), det)
 					continue
 				}
@@ -244,6 +248,10 @@ func (c17) Run(c *run.Ctx, phase, idx int) {
 					res := libRead(f)
 					det := map[string]interface{}{"cell": cell, "frame": hexClip(f, 256)}
 					if !res.Accepted() {
+						if _, serr := ref.Decode(f); serr != nil && res.Panic == nil {
+							c.Count("skipped", "wire-cell-refused-by-decoder/Subscribe", 1)
+							continue
+						}
 						c.Violation("C17/wire-rejected/Subscribe", fmt.Sprintf("frame for cell %s was not decoded: %v %v", cell, res.Err, res.Panic), det)
 						continue
 					}
